@@ -169,6 +169,16 @@ func (p *wkbParser) parseGeomRoot(gtype GeometryType, ctype CoordinatesType) (Ge
 	}
 }
 
+// checkCount gives an error if there cannot be n more elements of at least
+// minSize bytes each in the remaining input. Counts come from untrusted input,
+// so they are checked before anything is allocated based on them.
+func (p *wkbParser) checkCount(n uint32, minSize int) error {
+	if uint64(n)*uint64(minSize) > uint64(len(p.body)) {
+		return wkbSyntaxError{"unexpected EOF"}
+	}
+	return nil
+}
+
 func (p *wkbParser) parseFloat64() (float64, error) {
 	if len(p.body) < 8 {
 		return 0, wkbSyntaxError{"unexpected EOF"}
@@ -225,6 +235,10 @@ func (p *wkbParser) parseLineString(ctype CoordinatesType) (LineString, error) {
 	if err != nil {
 		return LineString{}, err
 	}
+	if uint64(n)*uint64(8*ctype.Dimension()) > uint64(len(p.body)) {
+		// Check before allocating: the count comes from untrusted input.
+		return LineString{}, wkbSyntaxError{"unexpected EOF"}
+	}
 	floats := make([]float64, int(n)*ctype.Dimension())
 
 	if len(p.body) < 8*len(floats) {
@@ -274,6 +288,9 @@ func (p *wkbParser) parsePolygon(ctype CoordinatesType) (Polygon, error) {
 	if n == 0 {
 		return Polygon{}.ForceCoordinatesType(ctype), nil
 	}
+	if err := p.checkCount(n, 4); err != nil {
+		return Polygon{}, err
+	}
 	rings := make([]LineString, n)
 	for i := range rings {
 		rings[i], err = p.parseLineString(ctype)
@@ -291,6 +308,9 @@ func (p *wkbParser) parseMultiPoint(ctype CoordinatesType) (MultiPoint, error) {
 	}
 	if n == 0 {
 		return MultiPoint{}.ForceCoordinatesType(ctype), nil
+	}
+	if err := p.checkCount(n, 5); err != nil {
+		return MultiPoint{}, err
 	}
 	pts := make([]Point, n)
 	for i := uint32(0); i < n; i++ {
@@ -314,6 +334,9 @@ func (p *wkbParser) parseMultiLineString(ctype CoordinatesType) (MultiLineString
 	if n == 0 {
 		return MultiLineString{}.ForceCoordinatesType(ctype), nil
 	}
+	if err := p.checkCount(n, 5); err != nil {
+		return MultiLineString{}, err
+	}
 	lss := make([]LineString, n)
 	for i := uint32(0); i < n; i++ {
 		geom, err := p.inner()
@@ -336,6 +359,9 @@ func (p *wkbParser) parseMultiPolygon(ctype CoordinatesType) (MultiPolygon, erro
 	if n == 0 {
 		return MultiPolygon{}.ForceCoordinatesType(ctype), nil
 	}
+	if err := p.checkCount(n, 5); err != nil {
+		return MultiPolygon{}, err
+	}
 	polys := make([]Polygon, n)
 	for i := uint32(0); i < n; i++ {
 		geom, err := p.inner()
@@ -357,6 +383,9 @@ func (p *wkbParser) parseGeometryCollection(ctype CoordinatesType) (GeometryColl
 	}
 	if n == 0 {
 		return GeometryCollection{}.ForceCoordinatesType(ctype), nil
+	}
+	if err := p.checkCount(n, 5); err != nil {
+		return GeometryCollection{}, err
 	}
 	geoms := make([]Geometry, n)
 	for i := uint32(0); i < n; i++ {
